@@ -293,7 +293,7 @@ type RefSpec struct {
 
 func (e *Env) refPath(spec RefSpec) string {
 	b, _ := json.Marshal(spec)
-	h := sha256.Sum256(append(b, []byte(corpusHash(spec.Prog))...))
+	h := sha256.Sum256(append(b, []byte(corpusHash(spec.Prog)+"|refv2")...))
 	return filepath.Join(simbuild.StateDir(), "ref", e.Key, hex.EncodeToString(h[:10])+".json")
 }
 
@@ -308,10 +308,58 @@ func corpusHash(prog string) string {
 	return h
 }
 
-// DebugDirSum hashes a -debugdir tree.
-func DebugDirSum(dir string) (string, int) {
-	files := world.ListFiles(dir)
-	return world.HashTree(dir, nil), len(files)
+// DebugDirSum hashes the part of a -debugdir tree that belongs to the build:
+// the files directly under source/<pkg>/ and garbled/<pkg>/ for every package
+// in deps. (garble also restores cached artifacts of packages it lists but
+// does not build — std packages reached only through runtime linknames — when
+// the cache happens to hold them; those extras depend on cache contents and are
+// not part of "the trees of the build". Their number is returned as well.)
+func DebugDirSum(dir string, deps []string) (sum string, files int, extras int) {
+	want := map[string]bool{}
+	for _, d := range deps {
+		want[d] = true
+	}
+	h := sha256.New()
+	for _, rel := range world.ListFiles(dir) {
+		parts := strings.SplitN(rel, "/", 2)
+		if len(parts) != 2 || (parts[0] != "source" && parts[0] != "garbled") {
+			continue // the sentinel file
+		}
+		pkg := filepath.Dir(parts[1])
+		if !want[pkg] {
+			extras++
+			continue
+		}
+		b, _ := os.ReadFile(filepath.Join(dir, rel))
+		fmt.Fprintf(h, "%s %d\n", rel, len(b))
+		h.Write(b)
+		files++
+	}
+	return hex.EncodeToString(h.Sum(nil)), files, extras
+}
+
+// Deps lists the import paths of everything a build of prog (+edits) contains.
+func (e *Env) Deps(prog string, edits []Edit) ([]string, error) {
+	v, err := e.Memo("deps:"+prog+editsKey(edits), func() (any, error) {
+		w, err := world.New(e.Bin, "deps")
+		if err != nil {
+			return nil, err
+		}
+		defer w.Close()
+		src, err := PrepareSource(w, prog, prog, edits)
+		if err != nil {
+			return nil, err
+		}
+		out, se, code := w.GoPlain(src, "list", "-deps", "-f", "{{.ImportPath}}", ".")
+		if code != 0 {
+			return nil, fmt.Errorf("go list -deps for %s failed: %s", prog, shortErr(se))
+		}
+		return strings.Fields(out), nil
+	})
+	if err != nil {
+		return nil, err
+	}
+	return v.([]string), nil
 }
 
 // Reference returns (building and memoising if needed) the isolated build of spec.
@@ -361,7 +409,11 @@ func (e *Env) Reference(spec RefSpec) (*Ref, error) {
 			r.Sha = world.HashFile(out)
 			r.Stdout, r.RunExit = RunBinary(out)
 			if spec.DebugDir {
-				r.DebugSum, r.DebugN = DebugDirSum(dd)
+				deps, err := e.Deps(spec.Prog, spec.Edits)
+				if err != nil {
+					return nil, err
+				}
+				r.DebugSum, r.DebugN, _ = DebugDirSum(dd, deps)
 			}
 		}
 		os.MkdirAll(filepath.Dir(path), 0o755)
